@@ -131,7 +131,7 @@ func replay(tier string, raw json.RawMessage) (bool, string, string) {
 func init() {
 	core.Register(&core.Prop{
 		ID: "C02", Variant: "plain", Shards: lexspace.Shards, Run: run, Replay: replay,
-		Rule: "every symbol sequence up to the bound over three small lexical alphabets (characters; lexical pieces such as quotes, escapes, comments, braces, the keyword pattern; pieces inside one statement argument incl. tabs, multi-byte runes, CR LF, same-line comments and single-quoted strings before a multi-line string) is parsed by yang.Parse and by a reference reader written from RFC 7950 section 6; accept/reject must agree, accepted forests must be equal in keywords, argument presence, exact argument strings, nesting and order, rejections must return no statements and a non-empty error; texts containing one of the four constructs the property excludes (or whose reading depends on how a tab is counted) are counted as excluded; states = distinct symbol sequences; non-trivial = accepted with at least one statement",
+		Rule:        "every symbol sequence up to the bound over three small lexical alphabets (characters; lexical pieces such as quotes, escapes, comments, braces, the keyword pattern; pieces inside one statement argument incl. tabs, multi-byte runes, CR LF, same-line comments and single-quoted strings before a multi-line string) is parsed by yang.Parse and by a reference reader written from RFC 7950 section 6; accept/reject must agree, accepted forests must be equal in keywords, argument presence, exact argument strings, nesting and order, rejections must return no statements and a non-empty error; texts containing one of the four constructs the property excludes (or whose reading depends on how a tab is counted) are counted as excluded; states = distinct symbol sequences; non-trivial = accepted with at least one statement",
 		Assumptions: []string{"the reference reader (ref/rfcread) is the RFC reading", "small alphabets and lengths stand for all texts (small-scope hypothesis)"},
 	})
 }
